@@ -248,12 +248,15 @@ class MediaRequestBase(RequestHandlerBase):
         if representation.encrypted:
             traf_modified = self.update_traf_if_required(options, traf)
             moof_modified = moof_modified or traf_modified
-        if moof_modified:
-            tfhd = traf.find_child('tfhd')
-            if tfhd is not None:
-                # force base_data_offset to be re-calculated when the
-                # tfhd box is encoded
-                tfhd.base_data_offset = None
+        # The segment is served as a resource of its own, so the moof box is
+        # (almost) never at the position it has in the stored file. Always
+        # force base_data_offset to be re-calculated when the tfhd box is
+        # encoded, and make sure the trun box has a data_offset field that
+        # can be re-calculated against it.
+        tfhd = traf.find_child('tfhd')
+        if tfhd is not None:
+            tfhd.base_data_offset = None
+        traf.trun.flags |= mp4.TrackFragmentRunBox.data_offset_present
         if traf_modified:
             saio = traf.find_child('saio')
             senc = traf.find_child('senc')
